@@ -265,6 +265,30 @@ pub fn exhaustive(ex: &mut Exec, maxn: usize) {
     }
 }
 
+/// is_identity on matrices one entry away from the identity: every storage, every bandwidth pair, every stored position
+pub fn near_identity(ex: &mut Exec, maxn: usize) {
+    for n in 1..=maxn {
+        let mut specs: Vec<(String, usize, usize)> = vec![(format!("fromstorage {} {} full", n, n), n, n)];
+        for ml in 0..n { for mu in 0..n { specs.push((format!("banded {} {} {}", n, ml, mu), ml, mu)); } }
+        for (spec, ml, mu) in &specs {
+            ex.regs.clear();
+            ex.emit("reset".into(), "ok".into());
+            ex.new_mat("A", spec);
+            ex.isid("A");
+            for i in 0..n { ex.set("A", i, i, 1.0); }
+            ex.isid("A");
+            for i in 0..n { for j in 0..n {
+                if !(j <= i + mu && i <= j + ml) { continue; }
+                let back = if i == j { 1.0 } else { 0.0 };
+                ex.set("A", i, j, if i == j { 0.0 } else { 5.0 });
+                ex.isid("A");
+                ex.set("A", i, j, back);
+            } }
+            ex.isid("A");
+        }
+    }
+}
+
 pub fn run(args: &[String]) {
     std::panic::set_hook(Box::new(|_| {}));
     let seed: u64 = args.get(0).and_then(|s| s.parse().ok()).unwrap_or(1);
@@ -275,6 +299,7 @@ pub fn run(args: &[String]) {
     let mut rng = Rng(seed);
     let mut ex = Exec::new();
     exhaustive(&mut ex, exh);
+    near_identity(&mut ex, exh + 2);
     let nexh = ex.nops;
     for _ in 0..cases {
         random_case(&mut ex, &mut rng, maxn);
@@ -325,6 +350,25 @@ pub fn oracle(args: &[String]) {
     let cases: usize = args.get(1).and_then(|s| s.parse().ok()).unwrap_or(300);
     let maxn: usize = args.get(2).and_then(|s| s.parse().ok()).unwrap_or(6);
     let mut rng = Rng(seed ^ 0xC17);
+    // directed: is_identity one entry away from the identity, every storage / bandwidth pair / stored position, n <= 5
+    for n in 1..=5usize {
+        let mut specs: Vec<(MatrixStorage, usize, usize)> = vec![(MatrixStorage::Full, n, n)];
+        for ml in 0..n { for mu in 0..n { specs.push((MatrixStorage::Banded { ml, mu }, ml, mu)); } }
+        for (st, ml, mu) in specs {
+            let mut a = Matrix::from_storage(n, n, st.clone());
+            for i in 0..n { a[(i, i)] = 1.0; }
+            let mut why = String::new();
+            if !a.is_identity() { why = "is_identity = false on a matrix whose entries are those of the identity".into(); }
+            for i in 0..n { for j in 0..n {
+                if !(j <= i + mu && i <= j + ml) || !why.is_empty() { continue; }
+                let old = a[(i, j)];
+                a[(i, j)] = if i == j { 0.0 } else { 5.0 };
+                if a.is_identity() { why = format!("is_identity = true although entry ({},{}) = {}", i, j, a[(i, j)]); }
+                a[(i, j)] = old;
+            } }
+            println!("{{\"kind\":\"moracle\",\"case\":\"near-identity\",\"n\":{},\"op\":\"is_identity\",\"a\":\"{}\",\"ok\":{},\"finding_key\":\"c17-is-identity\",\"why\":{:?}}}", n, storage_str(&st), why.is_empty(), why);
+        }
+    }
     for case in 0..cases {
         let n = 1 + rng.below(maxn);
         let (a, da_desc) = build(&mut rng, n);
